@@ -11,7 +11,6 @@ import (
 	"fmt"
 	"io/ioutil"
 	"math/rand"
-	"net"
 	"os"
 	"path/filepath"
 	"strconv"
@@ -191,28 +190,10 @@ func (w *polWorld) eventLoop(run *evid.Run, stop <-chan struct{}, done chan<- st
 // ---------------------------------------------------------------------------------------------------------------
 // host ports
 
-var fixedPortSeq int64
+// concPorts hands out the fixed host ports of the concurrent phase (lock-file blocks, see ports.go).
+var concPorts = newPortAllocator()
 
-// reserveFixedPort returns a port from the harness range 20000-29999 (below ip_local_port_range) that is free for TCP
-// and UDP right now, or 0.
-func reserveFixedPort(shard int) int32 {
-	for try := 0; try < 5; try++ {
-		n := atomic.AddInt64(&fixedPortSeq, 1)
-		port := 20000 + (shard%25)*400 + int(n%400)
-		l, err := net.Listen("tcp", fmt.Sprintf(":%d", port))
-		if err != nil {
-			continue
-		}
-		l.Close()
-		u, err := net.ListenUDP("udp", &net.UDPAddr{Port: port})
-		if err != nil {
-			continue
-		}
-		u.Close()
-		return int32(port)
-	}
-	return 0
-}
+func reserveFixedPort(shard int) int32 { return concPorts.take() }
 
 // addPorts gives about 40% of the concurrent pods container ports that make parsePorts return something.
 func addPorts(run *evid.Run, rng *rand.Rand, p *podModel, shard int) {
